@@ -391,6 +391,16 @@ func hasCall(x ast.Expr) bool {
 }
 
 func (e *Exec) compare(op token.Token, a, b Val, ta, tb types.Type) Val {
+	// two slice values (specifications only; Go itself compares slices only against nil): same header
+	if sa, ok := a.(SliceV); ok {
+		if sb, ok := b.(SliceV); ok && sa.Base != "0" && sb.Base != "0" {
+			r := mkAnd(mkEq(sa.Base, sb.Base), mkEq(sa.Off, sb.Off), mkEq(sa.Len, sb.Len))
+			if op == token.NEQ {
+				r = mkNot(r)
+			}
+			return bv(r)
+		}
+	}
 	// slices compare only against nil
 	if sa, ok := a.(SliceV); ok {
 		r := mkEq(sa.Base, "0")
@@ -687,6 +697,10 @@ func (e *Exec) refFacts(v Val, t types.Type) {
 			return
 		}
 		if k == kRef || k == kStruct {
+			if _, isMap := t.Underlying().(*types.Map); isMap {
+				e.declareFun("maptag", []string{SInt}, SInt)
+				e.assume(mkOr(mkEq(x.T, "0"), mkEq(sx("maptag", x.T), mkInt(int64(e.g.typeID(t.Underlying()))))))
+			}
 			e.assume(e.existing(x.T))
 		} else if k == kInt {
 			if lo, hi, ok := intRange(t); ok && !isIntLit(x.T) {
@@ -797,7 +811,7 @@ func (e *Exec) evCompositeLit(x *ast.CompositeLit) Val {
 		}
 		return s
 	case *types.Map:
-		m := e.newMap()
+		m := e.newMapT(t)
 		for _, el := range x.Elts {
 			if kv, ok := el.(*ast.KeyValueExpr); ok {
 				e.mapWrite(m, e.mapKey(e.ev(kv.Key), u.Key()), u.Elem(), e.evConv(kv.Value, u.Elem()))
